@@ -386,13 +386,36 @@ def peeling_rule(prog: Program, rep, RID: str):
     if not ok_rng:
         raise AnalysisError(f"{key}: `{norm(rng)}` is not a range over the path positions")
     n_edges = to_poly(rng.args[-1]) - (to_poly(ast.parse(f"len({P})", mode="eval").body) - to_poly(ast.Constant(1)))
-    if n_edges.const_value() == 0 and not sl.orelse and not any(isinstance(n, (ast.If, ast.Continue, ast.Break)) for n in ast.walk(sl)):
+    # the subtraction is unconditional when it is a statement of the loop body itself (or the inlined plain form `t = t - x`) that no
+    # `continue` / `break` / `return` can precede; what follows it (a log line under an `if`, say) does not make it conditional
+    def _holds_sub(st_):
+        return any(n is aug or (isinstance(n, ast.Assign) and getattr(n, "lineno", None) == getattr(aug, "lineno", None) and
+                                getattr(n, "col_offset", None) == getattr(aug, "col_offset", None)) for n in ast.walk(st_))
+    top = [i for i, st_ in enumerate(sl.body) if isinstance(st_, (ast.Assign, ast.AugAssign)) and _holds_sub(st_)]
+    unconditional = bool(top) and not any(isinstance(n, (ast.Continue, ast.Break, ast.Return)) for st_ in sl.body[:top[0]] for n in ast.walk(st_))
+    if n_edges.const_value() == 0 and not sl.orelse and unconditional:
         rep.ok(RID, key + ":all-edges", f"the subtraction visits all len({P}) - 1 edges of the path", f.loc(sl))
     elif n_edges.const_value() is not None and n_edges.const_value() != 0:
         rep.violation(RID, key + ":all-edges", f"`{norm(rng)}` visits {'fewer' if n_edges.const_value() < 0 else 'more'} than the len({P}) - 1 edges of the path: "
                       "the remaining flow of the skipped edge is never reduced, so the published weights do not add up to the flow on it", f.loc(sl))
     else:
         rep.violation(RID, key + ":all-edges", "the subtraction along the path is conditional: some edges of a peeled path keep their flow", f.loc(sl))
+    # the working graph keeps the topology of the caller's graph while it is peeled: max_bottleneck_path starts at the nodes without incoming
+    # edges and ends at those without outgoing edges *of the graph it is given*, so an edge or node taken out of (or added to) the working graph
+    # turns an inner node of the caller's graph into a start or end of a later path (a float residue of 1e-17 is enough to get such a path)
+    MUT = ("remove_edge", "remove_edges_from", "remove_node", "remove_nodes_from", "add_edge", "add_edges_from", "add_node", "add_nodes_from",
+           "add_weighted_edges_from", "clear", "clear_edges", "update")
+    muts = [c for n_ in lp.body for c in ast.walk(n_) if isinstance(c, ast.Call) and isinstance(c.func, ast.Attribute) and c.func.attr in MUT and
+            norm(c.func.value) in (T, f"{T}._adj", f"{T}._pred", f"{T}._succ")]
+    dels = [d for n_ in lp.body for d in ast.walk(n_) if isinstance(d, ast.Delete) and any(norm(t_).startswith(T + "[") or norm(t_).startswith(T + ".") for t_ in d.targets)]
+    if muts or dels:
+        bad = (muts + dels)[0]
+        rep.violation(RID, key + ":topology", f"`{norm(bad)[:120]}` inside the peeling loop changes the topology of the working graph `{T}`: max_bottleneck_path takes the "
+                      "nodes without incoming / outgoing edges of the graph it is given as the starts / ends of a path, so a later path starts or ends at an inner "
+                      "node of the caller's graph (e.g. a saturated edge removed, and a float residue of 0.1 + 0.2 - 0.3 left on its neighbour)", f.loc(bad))
+    else:
+        rep.ok(RID, key + ":topology", f"no edge or node of the working graph `{T}` is added or removed inside the peeling loop: every peeled path runs between a node without "
+               "incoming and a node without outgoing edges of the caller's graph", f.loc(lp))
     tgt = norm(aug.target)
     want_t = {f"{T}[{P}[{I}]][{P}[{I} + 1]][{A}]", f"{T}.edges[{P}[{I}], {P}[{I} + 1]][{A}]", f"{T}.edges[({P}[{I}], {P}[{I} + 1])][{A}]"}
     if tgt in want_t and isinstance(aug.op, ast.Sub) and norm(aug.value) == X:
@@ -755,7 +778,7 @@ def check(prog: Program, rep):
     frozen_rule(prog, rep, "C17.R3")
     rep.rule("C17.R4", "reachability tables: direction, processing order, seed and edge orientation agree with the query", floor=16)
     dp_direction(prog, rep, "C17.R4")
-    rep.rule("C17.R5", "bottleneck peeling: subtracted amount == published weight on every edge of the path; DP recurrence and path recovery", floor=9)
+    rep.rule("C17.R5", "bottleneck peeling: subtracted amount == published weight on every edge of the path; the working graph keeps its topology; DP recurrence and path recovery", floor=10)
     peeling_rule(prog, rep, "C17.R5")
     rep.rule("C17.R6", "maximum edge antichain: demands and costs of the min-cost-flow network", floor=2)
     antichain_network(prog, rep, "C17.R6")
